@@ -540,6 +540,47 @@ class Kit:
             out[(Ellipsis,) + xidx] = d
         return out
 
+    def timefun(self, name, shape, t, scale=1.0):
+        """A smooth prescribed function of time together with its exact first and
+        second derivatives: returns (f, f_t, f_tt) callables.
+        sym : jet atoms F(t) whose t-partials are the atoms F|t, F|t,t ... ; the
+              callables must be evaluated at the symbolic time `t` itself.
+        conc: a random cubic polynomial around the sampled value of t."""
+        shape = (shape,) if isinstance(shape, int) else tuple(shape)
+        if self.mode == "sym":
+            from contracts.subsys import Jets
+
+            jets = getattr(self, "_jets", None)
+            if jets is None:
+                jets = self._jets = Jets()
+            F = jets.array(name, shape, (t,))
+
+            def d(arr):
+                out = np.empty(arr.shape, dtype=object)
+                for idx in np.ndindex(*arr.shape):
+                    out[idx] = S.PARTIALS[arr[idx].uid].partial(t)
+                return out
+
+            F1 = d(F)
+            F2 = d(F1)
+
+            def chk(t_):
+                if t_ is not t:
+                    raise S.KitError("prescribed time function evaluated away from the symbolic time")
+
+            return (lambda t_: (chk(t_), F.copy())[1]), (lambda t_: (chk(t_), F1.copy())[1]), (lambda t_: (chk(t_), F2.copy())[1])
+        c = [self.reals(f"{name}.c{i}", shape, sample=lambda r: r.normal(size=shape) * scale) for i in range(4)]
+        t0 = float(t)
+        for idx in np.ndindex(*shape):
+            base = name + "".join(f"_{i}" for i in idx)
+            for order in range(4):
+                full = base if order == 0 else base + "|" + ",".join(["t"] * order)
+                self.env_atoms[S._mk("f", full, full)] = float(c[order][idx])
+        f = lambda t_: c[0] + c[1] * (t_ - t0) + c[2] * (t_ - t0) ** 2 / 2 + c[3] * (t_ - t0) ** 3 / 6
+        f_t = lambda t_: c[1] + c[2] * (t_ - t0) + c[3] * (t_ - t0) ** 2 / 2
+        f_tt = lambda t_: c[2] + c[3] * (t_ - t0)
+        return f, f_t, f_tt
+
     @contextlib.contextmanager
     def spec(self):
         """Arithmetic inside is specification code: divisions etc. are not logged
